@@ -61,3 +61,24 @@ def stepEv (a : Acc) : Ev → Acc
 def holds (t : List Ev) : Bool := (t.foldl stepEv {}).ok
 
 end GoSup.Spec.C07
+
+/-!
+## C07 lifted to the bundled runnables: one observed history of Run / Stop calls
+-/
+namespace GoSup.Spec.C07
+
+inductive LEv where
+  | runInv (k : Nat) | runRet (k : Nat) | stopCall (k : Nat) | stopRet (k : Nat) | other
+  deriving DecidableEq, Repr
+
+/-- (1) a Stop() returns only after the Run() has returned (single-Run histories: every `stopRet` is
+preceded by the `runRet`); (2) once a Run() was invoked, Run() and every Stop() return -/
+def liftHolds (hung : Bool) (t : List LEv) : Bool :=
+  let ranAtAll := t.any fun e => match e with | .runInv _ => true | _ => false
+  (!ranAtAll || !hung)
+  && (!ranAtAll || (List.range t.length).all fun j =>
+      match t[j]? with
+      | some (.stopRet _) => (t.take j).any fun e => match e with | .runRet _ => true | _ => false
+      | _ => true)
+
+end GoSup.Spec.C07
